@@ -1405,8 +1405,8 @@ fn c14(cases_path: &str, from: usize, out: &mut dyn Write) {
         std::thread::sleep(std::time::Duration::from_secs(2));
         let t = CASE_STARTED.load(std::sync::atomic::Ordering::SeqCst);
         let now = std::time::SystemTime::now().duration_since(std::time::UNIX_EPOCH).map(|d| d.as_secs()).unwrap_or(0);
-        if t != 0 && now > t + 60 {
-            eprintln!("WATCHDOG: case {} did not come back within 60 s - the thread polling the session is blocked", CASE_NO.load(std::sync::atomic::Ordering::SeqCst));
+        if t != 0 && now > t + 30 {
+            eprintln!("WATCHDOG: case {} did not come back within 30 s - the thread polling the session is blocked", CASE_NO.load(std::sync::atomic::Ordering::SeqCst));
             std::process::exit(97);
         }
     });
